@@ -272,6 +272,54 @@ func RunTxFlow(c *Ctx) {
 			c.Count("stopruns", 1)
 		}
 	}
+	// 1c. a refused datastore write (error, the process lives on) at every write position of every reap / production
+	// step of the scenario, with and without a restart afterwards: a failed hand-off or take is retried, nothing is lost
+	for _, bound := range []int{1, 2, 0} {
+		ops := []string{"inject2", "reap", "inject1", "reap", "step", "step", "reap", "step", "inject1r", "reap", "step"}
+		for i, op := range ops {
+			if op != "reap" && op != "step" {
+				continue
+			}
+			for k := 1; k <= 3; k++ {
+				for _, restart := range []bool{false, true} {
+					f := newFlowRun(c, fmt.Sprintf("wfail/b%d/op%d/k%d/r%v", bound, i, k, restart), bound)
+					f.start(-1)
+					var last []byte
+					for j, o := range ops {
+						if !f.up() {
+							f.start(-1)
+						}
+						if j == i {
+							f.n.KV.FailWrite(k)
+						}
+						switch o {
+						case "inject2":
+							last = f.inject(2, nil)[0]
+						case "inject1":
+							last = f.inject(1, nil)[0]
+						case "inject1r":
+							f.inject(1, last)
+						case "reap":
+							f.reap(-1)
+						case "step":
+							f.step(-1)
+						}
+						if j == i {
+							f.n.KV.FailWrite(0)
+							if restart && f.up() {
+								f.c.Tr.Emit("Stop", world.F{"node": "seq", "clean": true})
+								f.n.M = nil
+								f.reaper = nil
+							}
+						}
+					}
+					f.settle()
+					f.w.Close()
+					c.Count("wfailruns", 1)
+				}
+			}
+		}
+	}
 	// 2. seeded random histories
 	n := 60
 	if c.Thorough() {
